@@ -60,7 +60,7 @@ def k_exit(n: int, f0: bool, f1: bool, f2: bool, f3: bool) -> str:
 
 
 AK = ['file', 'dir', 'nonexistent', 'dot', 'non-utf8', 'untrashable', 'duplicate-of-first', 'link', 'dotdot-slash', 'empty-string',
-      'unwritable-info-dir', 'crowded-name', 'needs-one-retry']
+      'unwritable-info-dir', 'crowded-name', 'needs-one-retry', 'path-through-a-file', 'name-too-long']
 NAK = len(AK)
 MODES = [([], []), (['-f'], []), (['-i'], ['y', 'n', 'y', 'n']), (['-v'], []), (['-i'], ['n', 'n', 'n', 'n']), (['-f', '-v'], []),
          (['--trash-dir', '/v/td'], [])]  # one volume-independent trash dir for arguments that live on three volumes
@@ -92,6 +92,11 @@ def arg_for(kind, pos):
         return '/w/u%d' % pos, [W.f('/w/u%d' % pos, 'U', 0o644, 1500 + pos)], '/w/u%d' % pos
     if k == 'empty-string':
         return '', [], None
+    if k == 'path-through-a-file':
+        # does not exist, but the kernel says ENOTDIR rather than ENOENT
+        return d + '/plain/x', [W.d(d), W.f(d + '/plain', 'P', 0o644, 1900 + pos)], None
+    if k == 'name-too-long':
+        return d + '/' + 'n' * 300, [W.d(d)], None
     if k == 'needs-one-retry':
         # the first .trashinfo name is taken by a lone info file (left by an interrupted run): one EEXIST, then <name>_1 works
         nm = 'rt%d' % pos
@@ -181,7 +186,7 @@ def _case(n, k0, k1, k2, k3, mode):
                 if interactive and reply is None:
                     return rt.fail('C16:not-asked-under-i:%s' % k, 'argument %r of %r was not asked about; stdout %r' % (a, args, r['out'][-300:]))
                 expect.append(('untouched', False) if declined else ('trashed', False))
-            elif k in ('nonexistent', 'empty-string', 'gone-by-then'):
+            elif k in ('nonexistent', 'empty-string', 'gone-by-then', 'path-through-a-file', 'name-too-long'):
                 expect.append((None, '-f' not in opts))
             elif k in ('dot', 'dotdot-slash'):
                 expect.append((None, True))
@@ -221,7 +226,7 @@ def _case(n, k0, k1, k2, k3, mode):
 
 
 def third_full():
-    """thorough tier (PARTITION = (k0, True)): the third argument ranges over all 13 kinds, else over 6 of them"""
+    """thorough tier (PARTITION = (k0, True)): the third argument ranges over all 15 kinds, else over 6 of them"""
     return bool(PARTITION is not None and PARTITION[1])
 
 
@@ -253,9 +258,9 @@ def obligations(tier):
            encodes=['Context.trash_each', 'TrashPutReporter.exit_code', 'TrashAllResult.any_failure'],
            stubs=['SingleTrasher -> symbolic results'], bounds='0..4 arguments, every failure pattern'),
         CH('W_argument_lists_up_to_3', MOD, 'w_lists', timeout=2400, partitions=[(k, tier == 'thorough') for k in range(NAK)], engine='W', regime='selector',
-           encodes=K.PUT_FUNCS, stubs=K.STUBS, bounds='lists of 1..3 arguments x 13 argument kinds per position (third position: %s) x 7 option sets' % ('13 kinds' if tier == 'thorough' else '6 kinds: 0 2 4 6 10 12')),
+           encodes=K.PUT_FUNCS, stubs=K.STUBS, bounds='lists of 1..3 arguments x 15 argument kinds per position (third position: %s) x 7 option sets' % ('15 kinds' if tier == 'thorough' else '6 kinds: 0 2 4 6 10 12')),
     ]
     if tier == 'thorough':
         obs.append(CH('W_argument_lists_of_4', MOD, 'w_lists4', timeout=7000, partitions=list(range(NAK)), twin=False, engine='W',
-                      regime='selector', encodes=K.PUT_FUNCS, stubs=K.STUBS, bounds='lists of 4 arguments: 13 kinds for the first three positions, 6 for the fourth, x 7 option sets'))
+                      regime='selector', encodes=K.PUT_FUNCS, stubs=K.STUBS, bounds='lists of 4 arguments: 15 kinds for the first three positions, 6 for the fourth, x 7 option sets'))
     return obs
